@@ -208,7 +208,7 @@ case("a statement helper called in a while-test is inlined through `while True: 
 # -- static methods called through the class; module-level literals of the helper's module ------------------------------------------------
 _S = "WRAP = 2**32\nclass K(object):\n    @staticmethod\n    def nxt(i):\n        j = i + 1\n        if j == WRAP:\n            return 1\n        return j\n"
 case("static method through the class name is inlined, carrying its module's literal", {"h": _S, "m": "from .h import K\nclass A(object):\n    def f(self):\n        self.n = K.nxt(self.n)\n        return self.n\n"}, "m", "f",
-     has=["2 ** 32"], lacks=["K.nxt"])
+     has=["4294967296"], lacks=["K.nxt"])
 case("static method kept: the module constant is bound twice", {"h": _S + "WRAP = 5\n", "m": "from .h import K\nclass A(object):\n    def f(self):\n        self.n = K.nxt(self.n)\n        return self.n\n"}, "m", "f",
      has=["K.nxt"])
 case("static method kept: K is another binding in the calling module", {"h": _S, "m": "from .other import K\nclass A(object):\n    def f(self):\n        self.n = K.nxt(self.n)\n        return self.n\n"}, "m", "f",
@@ -299,6 +299,10 @@ case("module constant display kept: the value is returned (it escapes)", {"const
 
 case("a reversed display of plain names is the display written the other way round", {"m": "def f(g, a, b):\n    return g(1, *(a, b)[::-1])\n"}, "m", "f", has=["g(1, b, a)"])
 case("reversed display kept: an element is a call", {"m": "def f(g, a, b):\n    return g(1, *(a(), b)[::-1])\n"}, "m", "f", has=["[::-1]"])
+
+case("module-level numbers computed from literals are the numbers; literal tests of conditional expressions pick their arm", {"m": "Z0 = 1\nZ1 = 2\nZS = (0, Z1, Z0, Z0 | Z1)\nclass S(object):\n    def f(self, a, b):\n        for z in ZS:\n            r = self.g(0 if z & Z0 else a, 0 if z & Z1 else b)\n            if r:\n                return r\n        return None\n"},
+     "m", "f", has=["self.g(a, b)", "self.g(a, 0)", "self.g(0, b)", "self.g(0, 0)"], lacks=["ZS", " if "+"z"])
+case("module-level number kept as a name: it is re-bound in a function", {"m": "Z0 = 1\ndef h():\n    global Z0\n    Z0 = 5\ndef f(a):\n    return a & Z0\n"}, "m", "f", has=["a & Z0"])
 
 
 def main():
